@@ -125,3 +125,53 @@ def np_attrs(model, modules=None):
             if isinstance(n, ast.Attribute) and isinstance(n.value, ast.Name) and n.value.id in np_names:
                 out.append((m, n.attr, n.lineno, n))
     return out
+
+
+def scalar_has_method(cls_name, method):
+    """'yes' | 'no' | 'unknown': does the NumPy scalar class `cls_name` (as declared in the installed type stub) define or
+    inherit `method`?  'no' only when the class and every stub-declared base could be followed."""
+    d = _numpy_dir()
+    if d is None:
+        return 'unknown'
+    key = 'classes'
+    if key not in _CACHE:
+        classes = {}
+        try:
+            with open(os.path.join(d, '__init__.pyi')) as f:
+                tree = ast.parse(f.read())
+            for n in tree.body:
+                if isinstance(n, ast.ClassDef):
+                    bases = []
+                    for b in n.bases:
+                        while isinstance(b, ast.Subscript):
+                            b = b.value
+                        if isinstance(b, ast.Name):
+                            bases.append(b.id)
+                        elif isinstance(b, ast.Attribute):
+                            bases.append(b.attr)
+                    meths = {m.name for m in n.body if isinstance(m, (ast.FunctionDef, ast.AsyncFunctionDef))}
+                    meths |= {t.id for m in n.body if isinstance(m, ast.Assign) for t in m.targets if isinstance(t, ast.Name)}
+                    meths |= {m.target.id for m in n.body if isinstance(m, ast.AnnAssign) and isinstance(m.target, ast.Name)}
+                    classes[n.name] = (bases, meths)
+        except (OSError, SyntaxError):
+            classes = {}
+        _CACHE[key] = classes
+    classes = _CACHE[key]
+    if cls_name not in classes:
+        return 'unknown'
+    seen, todo, unknown = set(), [cls_name], False
+    while todo:
+        c = todo.pop()
+        if c in seen:
+            continue
+        seen.add(c)
+        if c in ('Generic', 'Protocol', 'object'):
+            continue
+        if c not in classes:
+            unknown = True
+            continue
+        bases, meths = classes[c]
+        if method in meths:
+            return 'yes'
+        todo.extend(bases)
+    return 'unknown' if unknown else 'no'
